@@ -100,6 +100,10 @@ func DialContext(ctx context.Context, addr, mycall, password string) (net.Conn, 
 		return nil, err
 	}
 
+	// The login is part of the dial: it must end with the context as well.
+	stop := context.AfterFunc(ctx, func() { conn.SetDeadline(time.Now()) })
+	defer stop()
+
 	// Log in to telnet server
 	reader := bufio.NewReader(conn)
 L:
@@ -109,7 +113,10 @@ L:
 		switch {
 		case err != nil:
 			conn.Close()
-			return nil, fmt.Errorf("Error while logging in: %s", err)
+			if ctx.Err() != nil {
+				err = ctx.Err()
+			}
+			return nil, fmt.Errorf("Error while logging in: %w", err)
 		case strings.HasPrefix(line, "callsign"):
 			fmt.Fprintf(conn, "%s\r", mycall)
 		case strings.HasPrefix(line, "password"):
@@ -118,5 +125,10 @@ L:
 		}
 	}
 
+	if !stop() {
+		// The context ended while we were logging in
+		conn.Close()
+		return nil, fmt.Errorf("Error while logging in: %w", ctx.Err())
+	}
 	return &Conn{Conn: conn, remoteCall: CMSTargetCall, r: reader}, nil
 }
